@@ -21,7 +21,6 @@ thread_local! {
 /// Seeds the permutation source for parallel loops on this thread.
 pub fn set_order_seed(s: u64) {
     ORDER_SEED.with(|c| c.set(s));
-    LOOPS.with(|c| c.set(0));
 }
 
 /// Simulated pool size (only used by the sched flavour).
